@@ -45,7 +45,9 @@ def invoke(obj, name, kw, model):
     from registry.specs import resolve_arg
     if name.startswith("attr:"):
         return getattr(obj, name[5:])
-    args = {k: resolve_arg(v, model) for k, v in kw.items()}
+    args = {k: (getattr(type(obj), v[8:]) if isinstance(v, str)
+                and v.startswith("@static:") else resolve_arg(v, model))
+            for k, v in kw.items()}
     out = getattr(obj, name)(**args)
     if hasattr(out, "__next__"):
         out = list(out)
@@ -85,6 +87,7 @@ def run_dirs():
 class C01(Machine):
     pid = "C01"
     run_wall_cap = 60.0
+    minimise_by = "victim"
     rule = ("two layers: (a) pair sweep -- for a fixed seeded input per "
             "class, every (mutator, query pattern): build; q; fillers; m; q; "
             "(b) random histories of 6..30 ops over 1..3 live objects "
